@@ -38,7 +38,21 @@ fn gen(seed: u64, idx: u64, _tier: Tier) -> Plan {
     world_knobs(&mut rng, &mut plan, false);
     if scenario == "c20.failing_startup" {
         // configurations that make start-up fail in different ways, with the seed present
-        match rng.below(9) {
+        match rng.below(13) {
+            9 | 10 => {
+                // a seed whose 64 hex digits are all decimal (9), or decimal with one 'e' (10),
+                // written bare as the README writes seeds: YAML reads a number, start-up fails
+                // (from the environment the same text is an ordinary seed and the server runs)
+                let mut digits: Vec<u8> = (0..64).map(|_| b'0' + rng.below(10) as u8).collect();
+                digits[0] = b'1' + rng.below(9) as u8;
+                if rng.chance(1, 2) {
+                    digits[20 + rng.below(30) as usize] = *rng.pick(&[b'e', b'E']);
+                }
+                s.seed_hex = String::from_utf8(digits).unwrap();
+                s.seed_written = Some(s.seed_hex.clone());
+            }
+            11 => s.seed_written = Some(format!("{}zz", s.seed_hex)),
+            12 => s.seed_written = Some(format!("{}{}", s.seed_hex, *rng.pick(&["0", "00", "0000"]))),
             6 | 7 => {
                 // the health port is held by another program: the listener cannot be bound
                 s.health_port = Some(8000);
